@@ -1547,11 +1547,11 @@ class _Activation:
         out = []
         for s, v in self.eval(sub_, st, side_effects):
             if op == '-':
-                out.append((s, C(-v[1]) if is_c(v) else ('neg', v)))
+                out.append((s, self.wrap_const(C(-v[1]), n) if is_c(v) else ('neg', v)))
             elif op == '+':
                 out.append((s, v))
             elif op == '~':
-                out.append((s, C(~v[1]) if is_c(v) else ('~', v)))
+                out.append((s, self.wrap_const(C(~v[1]), n) if is_c(v) else ('~', v)))
             elif op == '__extension__':
                 out.append((s, v))
             else:
@@ -1560,7 +1560,25 @@ class _Activation:
 
     def arith(self, op, a, b, node):
         m = {'&': '&b', '|': '|b', '^': '^b'}
-        return mk_bin(m.get(op, op), a, b)
+        r = mk_bin(m.get(op, op), a, b)
+        if r[0] == 'c' and is_c(a) and is_c(b):
+            r = self.wrap_const(r, node)
+        return r
+
+    def wrap_const(self, c, node):
+        """constant folding follows the C type of the expression: unsigned types wrap
+        modulo 2^N, signed ones are reduced to their two's-complement range"""
+        qt = cast.qual_type(node).replace('const ', '').strip() if isinstance(node, dict) else ''
+        ct = node.get('computeResultType', {}) if isinstance(node, dict) else {}
+        if ct:
+            qt = (ct.get('desugaredQualType') or ct.get('qualType') or qt).replace('const ', '').strip()
+        bits = self.INT_BITS.get(qt)
+        if not bits or bits == 1:
+            return c
+        v = c[1] & ((1 << bits) - 1)
+        if not qt.startswith('unsigned') and v >> (bits - 1):
+            v -= 1 << bits
+        return C(v)
 
     def eval_binary(self, n, st, side_effects):
         op = n['opcode']
